@@ -115,6 +115,12 @@ def register(R):
             out['construction_failure_releases_the_permit_exactly_once'] = B(len(rel) == 1)
             out['failure_path_marks_done_callbacks_complete_after_the_release'] = B(
                 len(done_set) == 1 and len(rel) == 1 and index_of(ft, rel[0]) < index_of(ft, done_set[0]))
+            # "runs on_done subscribers before the transfer is reported as having finished its callbacks" (and before its permit
+            # is given back): the pass over the subscribers' on_done callbacks precedes the release and the completion mark
+            first_raise = min([index_of(ft, e) for e in ft if e.kind in ('ext', 'call') and e.extra.get('raised') is not None] or [len(ft)])
+            done_passes = [e for e in sub_loops if index_of(ft, e) > first_raise]
+            out['on_done_subscribers_run_before_the_release_and_the_completion_mark'] = B(bool(
+                done_passes and rel and done_set and all(index_of(ft, l) < index_of(ft, rel[0]) and index_of(ft, l) < index_of(ft, done_set[0]) for l in done_passes)))
             se = [e for e in ft if e.kind == 'lock' and e.name.endswith('CRTTransferCoordinator._lock')]
             out['failure_recorded_before_the_callbacks_run'] = B(len(se) >= 1 and index_of(ft, se[0]) < index_of(ft, rel[0]) if rel else False)
             # ... and what is recorded is the construction error itself (so result() raises it)
